@@ -34,6 +34,14 @@ const POS_FENS: &[&str] = &[
     "8/P6k/8/8/8/8/8/K7 w - - 0 1",
     "8/8/8/8/8/8/p6K/k7 b - - 0 1",
     "2kr3r/pp1n1ppp/2p1bn2/q3p1B1/1b2P3/2NB1N2/PPPQ1PPP/2KR3R w - - 8 11",
+    "4k3/8/8/8/Pp6/8/8/4K3 b - a3 0 1",
+    "4k3/8/8/pP6/8/8/8/4K3 w - a6 0 1",
+    "4k3/8/8/8/6pP/8/8/4K3 b - h3 0 1",
+    "4k3/8/8/6Pp/8/8/8/4K3 w - h6 0 1",
+    "rnbqkbnr/1ppppppp/8/8/pP6/8/P1PPPPPP/RNBQKBNR b KQkq b3 0 2",
+    "k7/8/8/8/8/8/1B3B2/7K w - - 0 1",
+    "k7/8/8/8/8/8/1b3b2/7K b - - 0 1",
+    "4k3/8/8/8/8/8/P6P/4K3 w - - 0 1",
 ];
 
 pub struct Env {
@@ -190,8 +198,11 @@ pub fn check_in_pos(ctx: &mut Ctx, t: &str, b: &Board, which: u32) {
 pub fn check_text(ctx: &mut Ctx, env: &Env, t: &str, which: u32, positions: usize) {
     check_free(ctx, t, which);
     if which & (2 | 4 | 16) != 0 {
-        for b in env.boards.iter().take(positions) {
-            check_in_pos(ctx, t, b, which);
+        // `positions` boards, starting at a text-dependent offset so that every board gets its share
+        let n = env.boards.len();
+        let start = if positions >= n { 0 } else { (crate::rng::fingerprint(t.as_bytes()) % n as u64) as usize };
+        for k in 0..positions.min(n) {
+            check_in_pos(ctx, t, &env.boards[(start + k) % n], which);
         }
     }
 }
